@@ -7,6 +7,7 @@ options."""
 import itertools
 import json
 import os
+import shutil
 import re
 import subprocess
 
@@ -227,11 +228,19 @@ def part_b(run):
     for c in cases:
         gendrv_request(c, fac.work)
     ind = os.path.join(fac.work, "in")
-    def attribute_for(c, o, sp, cid, abs_schema=False):
+    # a directory reached through a symbolic link, then left again with `..`: the operating system follows the link first, so
+    # `../linkdir/../in2/x` is <work>/viaroot/deep/in2/x (the real schema), not <work>/in2/x (a decoy) as a textual clean-up of
+    # the path would have it
+    os.makedirs(os.path.join(fac.work, "viaroot", "deep", "real"))
+    os.makedirs(os.path.join(fac.work, "viaroot", "deep", "in2"))
+    os.makedirs(os.path.join(fac.work, "in2"))
+    os.symlink(os.path.join(fac.work, "viaroot", "deep", "real"), os.path.join(fac.work, "linkdir"))
+
+    def attribute_for(c, o, sp, cid, abs_schema=False, via_link=False):
         keys = []
         st = lambda v: lit(v, rng.choice(["plain", "plain", "raw", "hash-raw", "escaped"]))[0]
         # an absolute schema path (a schema shared outside the crate) resolves to itself against any directory
-        keys.append("schema_path = %s" % st(os.path.join(ind, sp) if abs_schema else "../in/" + sp))
+        keys.append("schema_path = %s" % st(os.path.join(ind, sp) if abs_schema else ("../linkdir/../in2/" + sp if via_link else "../in/" + sp)))
         keys.append("query_path = %s" % st("../in/" + cid + ".query.graphql"))
         for k, a in (("response_derives", "response_derives"), ("variables_derives", "variables_derives"), ("normalization", "normalization"),
                      ("deprecation", "deprecated"), ("custom_scalars_module", "custom_scalars_module")):
@@ -258,9 +267,15 @@ def part_b(run):
         o = c["options"]
         sp = [f for f in os.listdir(ind) if f.startswith(cid + ".schema.")][0]
         abs_schema = (ci % 4 == 3)
+        via_link = (ci % 4 == 2)
         if abs_schema:
             run.count("absolute-schema-paths")
-        attr, sname = attribute_for(c, o, sp, cid, abs_schema=abs_schema)
+        if via_link:
+            run.count("schema-paths-through-a-symlinked-directory")
+            shutil.copy(os.path.join(ind, sp), os.path.join(fac.work, "viaroot", "deep", "in2", sp))
+            with open(os.path.join(fac.work, "in2", sp), "w") as fh:
+                fh.write("type Query { decoy_of_a_textually_normalised_path: Int }\n" if not sp.endswith(".json") else "{}")
+        attr, sname = attribute_for(c, o, sp, cid, abs_schema=abs_schema, via_link=via_link)
         # the consumer's extern enum / scalar support follows the normalisation actually in force
         eff_norm = "rust" if (o.get("normalization") or "").lower().strip() == "rust" else "none"
         sup_opts = dict(o, normalization=eff_norm)
@@ -284,7 +299,8 @@ def part_b(run):
             written[cid] = {"attr": attr + "// twin:\n" + attr2, "schema_rel": "../in/" + sp, "query_rel": "../in/" + cid + ".query.graphql", "struct": sname}
         else:
             srcs[cid] = support_code(c) + attr
-            written[cid] = {"attr": attr, "schema_rel": os.path.join(ind, sp) if abs_schema else "../in/" + sp, "query_rel": "../in/" + cid + ".query.graphql", "struct": sname}
+            written[cid] = {"attr": attr, "schema_rel": os.path.join(ind, sp) if abs_schema else ("../linkdir/../in2/" + sp if via_link else "../in/" + sp),
+                            "query_rel": "../in/" + cid + ".query.graphql", "struct": sname}
     # rustc runs somewhere else than in the manifest directory (as under cargo in a workspace), and from there the same
     # relative paths lead to other files: whoever resolves a path against the working directory reads these
     elsewhere = os.path.join(fac.work, "elsewhere", "cwd")
